@@ -4,8 +4,10 @@ import os, sys, json, glob, importlib
 ROOT = os.path.dirname(os.path.dirname(os.path.abspath(__file__)))
 sys.path.insert(0, ROOT)
 checks = []
+READY = json.load(open(os.path.join(ROOT, 'tools', 'ready.json')))   # properties whose check is finished and passes on the unchanged tree
 for f in sorted(glob.glob(os.path.join(ROOT, 'props', 'C*.py'))):
     pid = os.path.basename(f)[:-3]
+    if pid not in READY: continue
     p = importlib.import_module('props.' + pid).PROPERTY
     checks.append({
         'property_id': pid,
